@@ -6,6 +6,7 @@ package c13
 import (
 	"bytes"
 	"fmt"
+	"os"
 	"path/filepath"
 	"sync"
 	"time"
@@ -117,6 +118,19 @@ type Act struct {
 	Arg     int    `json:"arg"`
 	Times   int    `json:"times"`
 	DelayMs int    `json:"delay_ms"`
+	// FollowMs > 0: the genuine block follows that long after an answer that leaves the request
+	// open (silence, undecodable bytes, a block under another height). 0: it never does; the node
+	// finds out by its 15 s peer timeout unless the peer hangs up before.
+	FollowMs int `json:"follow_ms,omitempty"`
+}
+
+// leavesOpen: answers after which the node is still waiting for the block it asked for.
+func leavesOpen(kind string) bool {
+	switch kind {
+	case "silent", "garbage", "hdr-height", "other-height":
+		return true
+	}
+	return false
 }
 
 type PeerScript struct {
@@ -433,8 +447,13 @@ func (r *bcReactor) GetChannels() []*p2p.ChannelDescriptor {
 	return []*p2p.ChannelDescriptor{{ID: bcChannel, Priority: 5, SendQueueCapacity: 100}}
 }
 
+var verbose = os.Getenv("C13_VERBOSE") != ""
+
 func (r *bcReactor) AddPeer(peer *p2p.Peer) {
 	sp := r.sp
+	if verbose {
+		fmt.Printf("%s peer%d connected\n", time.Now().Format("15:04:05.000"), sp.idx)
+	}
 	sp.mu.Lock()
 	sp.connected = true
 	if sp.firstConn.IsZero() {
@@ -446,6 +465,9 @@ func (r *bcReactor) AddPeer(peer *p2p.Peer) {
 
 func (r *bcReactor) RemovePeer(peer *p2p.Peer, reason interface{}) {
 	sp := r.sp
+	if verbose {
+		fmt.Printf("%s peer%d disconnected: %v\n", time.Now().Format("15:04:05.000"), sp.idx, reason)
+	}
 	sp.mu.Lock()
 	sp.connected = false
 	sp.removed++
@@ -506,12 +528,12 @@ func (sp *scriptedPeer) answer(peer *p2p.Peer, hgt int64) {
 	nth := sp.asked[hgt]
 	sp.mu.Unlock()
 	kind, arg := "honest", 0
-	delay := 0
+	delay, follow := 0, 0
 	if sp.script.MaxDelayMs > 0 {
 		delay = (sp.script.Seed*7 + int(hgt)*13) % (sp.script.MaxDelayMs + 1)
 	}
 	if a := sp.actFor(hgt); a != nil && nth <= a.Times {
-		kind, arg, delay = a.Kind, a.Arg, a.DelayMs
+		kind, arg, delay, follow = a.Kind, a.Arg, a.DelayMs, a.FollowMs
 	}
 	if delay > 0 {
 		select {
@@ -527,17 +549,32 @@ func (sp *scriptedPeer) answer(peer *p2p.Peer, hgt int64) {
 	sp.mu.Lock()
 	sp.served = append(sp.served, served{Height: hgt, Kind: kind, Tampered: effective && kind != "dup"})
 	sp.mu.Unlock()
-	if !send {
-		return
+	if verbose {
+		fmt.Printf("%s peer%d answers request #%d for %d: %s (send=%v, peer running=%v)\n", time.Now().Format("15:04:05.000"), sp.idx, nth, hgt, kind, send, peer.IsRunning())
 	}
-	if raw != nil {
+	switch {
+	case !send:
+	case raw != nil:
 		// a message object whose wire form is exactly these bytes
 		peer.TrySend(bcChannel, rawBytes(raw))
-		return
-	}
-	peer.TrySend(bcChannel, struct{ C13Message }{&blockResponseMsg{Block: blk}})
-	if kind == "dup" {
+	default:
 		peer.TrySend(bcChannel, struct{ C13Message }{&blockResponseMsg{Block: blk}})
+		if kind == "dup" {
+			peer.TrySend(bcChannel, struct{ C13Message }{&blockResponseMsg{Block: blk}})
+		}
+	}
+	if effective && leavesOpen(kind) && follow > 0 {
+		select {
+		case <-time.After(time.Duration(follow) * time.Millisecond):
+		case <-sp.stopCh:
+			return
+		}
+		if b := sp.src.load(hgt); b != nil {
+			sp.mu.Lock()
+			sp.served = append(sp.served, served{Height: hgt, Kind: "honest"})
+			sp.mu.Unlock()
+			peer.TrySend(bcChannel, struct{ C13Message }{&blockResponseMsg{Block: b}})
+		}
 	}
 }
 
